@@ -154,6 +154,21 @@ func (c *Ctx) runAs(from, to string, fn func(cc *Ctx)) {
 	c.adopt(sub, from, to)
 }
 
+// runOnly is runAs keeping only the obligations filed under rule `from` (fn may be a whole property).
+func (c *Ctx) runOnly(from, to string, fn func(cc *Ctx)) {
+	sub := NewReport(c.R.Prop, c.R.Tier)
+	cc := &Ctx{P: c.P, V: c.V, R: sub, Opt: c.Opt}
+	fn(cc)
+	var keep []*Obligation
+	for _, o := range sub.Obls {
+		if strings.HasSuffix(o.Rule, "."+from) {
+			keep = append(keep, o)
+		}
+	}
+	sub.Obls = keep
+	c.adopt(sub, from, to)
+}
+
 // adopt copies the obligations of a sub-report, renaming the rule.
 func (c *Ctx) adopt(sub *Report, from, to string) {
 	for _, o := range sub.Obls {
